@@ -156,4 +156,51 @@ func suiteShimURL(e *vh.Env) {
 			e.Count("outside-prefix")
 		}
 	}
+	// a backend that answers the handshake with a redirect built from the Host header it received, with
+	// --rewrite-websocket-host on (the Host header is then the client's): whatever the answer, the only peer is the backend
+	{
+		var seen []string
+		websocket.DefaultDialer.NetDialContext = func(ctx context.Context, network, addr string) (net.Conn, error) {
+			mu.Lock()
+			seen = append(seen, addr)
+			mu.Unlock()
+			return (&net.Dialer{}).DialContext(ctx, network, addr)
+		}
+		foreign, _ := net.Listen("tcp", "127.0.0.1:0")
+		go func() {
+			for {
+				c, err := foreign.Accept()
+				if err != nil {
+					return
+				}
+				c.Close()
+			}
+		}()
+		be := httptest.NewServer(http.HandlerFunc(func(w http.ResponseWriter, r *http.Request) {
+			http.Redirect(w, r, "http://"+r.Host+r.URL.Path+"/", http.StatusMovedPermanently)
+		}))
+		realBackend := strings.TrimPrefix(be.URL, "http://")
+		for _, rewrite := range []bool{true, false} {
+			hr, _ := websockets.Proxy(context.Background(), wrapped, realBackend, "shimpath", rewrite, false, ident, nil)
+			mu.Lock()
+			seen = nil
+			mu.Unlock()
+			req := httptest.NewRequest("POST", "http://agent.example/shimpath/open", strings.NewReader("ws://agent.example/redir"))
+			req.Host = foreign.Addr().String()
+			rw := httptest.NewRecorder()
+			hr.ServeHTTP(rw, req)
+			mu.Lock()
+			ds := append([]string(nil), seen...)
+			mu.Unlock()
+			for _, d := range ds {
+				if d != realBackend {
+					e.Fail("C13:foreign-dial", fmt.Sprintf("shim open (rewrite-websocket-host %v) with Host header %s; the backend %s answered the handshake with a redirect to that host; the agent then connected to %q", rewrite, foreign.Addr(), realBackend, d), 950000, nil, d, realBackend)
+				}
+			}
+			e.Eval(fmt.Sprintf("redirecting-backend rewrite=%v", rewrite), true)
+			e.Count("redirecting-backend")
+		}
+		be.Close()
+		foreign.Close()
+	}
 }
